@@ -446,6 +446,48 @@ def _prec_table(node, file, module=None):
     return table
 
 
+def _prec_value(src, node, file, depth=0):
+    """the precedence table of a parser class: a tuple literal (rows may splat module-level tuples), or - evaluated by the fail-closed interpreter - the value of a
+    module-level constant / a call of a pure helper (`precedence_levels('left PLUS MINUS', ...)`), or the table of another parser class (`SQLParser.precedence`)"""
+    if isinstance(node, (ast.Tuple, ast.List)):
+        return _prec_table(node, file, src.tree(file))
+    if depth > 3:
+        raise AnalysisError(f'{file}:{node.lineno}: precedence is defined through too many indirections')
+    tree = src.tree(file)
+    if isinstance(node, ast.Attribute) and node.attr == 'precedence' and isinstance(node.value, ast.Name):
+        # the table of another parser class, imported into this module or defined in it
+        cname = node.value.id
+        for st in ast.walk(tree):
+            if isinstance(st, ast.ClassDef) and st.name == cname:
+                for b in st.body:
+                    if isinstance(b, ast.Assign) and len(b.targets) == 1 and isinstance(b.targets[0], ast.Name) and b.targets[0].id == 'precedence':
+                        return _prec_value(src, b.value, file, depth + 1)
+            if isinstance(st, ast.ImportFrom) and st.module and st.module.startswith('mindsdb_sql') and any((a.asname or a.name) == cname for a in st.names):
+                f2 = st.module.replace('.', '/') + '.py'
+                if src.exists(f2):
+                    t2 = src.tree(f2)
+                    real = next((a.name for a in st.names if (a.asname or a.name) == cname), cname)
+                    for c2 in t2.body:
+                        if isinstance(c2, ast.ClassDef) and c2.name == real:
+                            for b in c2.body:
+                                if isinstance(b, ast.Assign) and len(b.targets) == 1 and isinstance(b.targets[0], ast.Name) and b.targets[0].id == 'precedence':
+                                    return _prec_value(src, b.value, f2, depth + 1)
+        raise AnalysisError(f'{file}:{node.lineno}: the precedence table of {cname} was not found')
+    from .interp import Interp, Env, Raised
+    try:
+        val = Interp.for_file(src, file, {}, {}).ev(node, Env())
+    except Raised as r:
+        raise AnalysisError(f'{file}:{node.lineno}: evaluating the precedence table raises {r.exc_name}')
+    rows = []
+    if not isinstance(val, (tuple, list)) or not val:
+        raise AnalysisError(f'{file}:{node.lineno}: precedence is not a tuple literal and does not evaluate to a table ({val!r:.60})')
+    for row in val:
+        if not (isinstance(row, (tuple, list)) and len(row) >= 2 and all(isinstance(x, str) for x in row) and row[0] in ('left', 'right', 'nonassoc')):
+            raise AnalysisError(f'{file}:{node.lineno}: malformed precedence row {row!r}')
+        rows.append((row[0], list(row[1:]), node.lineno))
+    return rows
+
+
 def _is_rule_decorator(d):
     return isinstance(d, ast.Call) and isinstance(d.func, ast.Name) and d.func.id == '_'
 
@@ -489,7 +531,7 @@ def extract_parser(src, file, cls, lexer=None):
     if 'error' in g.tokens:
         raise AnalysisError(f'{cls}: token named error')
     if prec_node is not None:
-        g.precedence = _prec_table(prec_node, file, src.tree(file))
+        g.precedence = _prec_value(src, prec_node, file)
     for lvl, (assoc, terms, _ln) in enumerate(g.precedence, 1):
         for t in terms:
             if t in g.precmap:
